@@ -5,7 +5,7 @@ CONSTANTS MaxPre = 1 MaxN = 5
   Posts <- PostsMid
   FlowKinds = {"bare", "ctx"}
   Drivers = {"run", "fill", "split"}
-  Places = {"alone", "first", "middle", "last", "afterstop"}
+  Places = {"alone", "middle", "afterstop"}
   StopFlag = "per_branch"
   CopyMode = "per_branch"
   Bufs <- BufQuick
